@@ -226,6 +226,72 @@ func c09Case(origin, typ string, nlines int, prefixKnown string) *Case {
 	return cs
 }
 
+// c09FormatLintCase: a typed literal inside format() - as the body of a text
+// statement, of a text-poryswitch case, and as a command argument - compiled
+// in lint mode (no font configuration exists, the formatter's result is not
+// looked at): the data still gets the type's directive and terminator. Lint
+// mode has no switch values, so in the poryswitch origins the format() is the
+// content of the '_' case.
+func c09FormatLintCase(origin, typ string) *Case {
+	atoms := &AtomTable{Coded: true}
+	name := atoms.New(ClsUserName, "name", "names")
+	lit := typ + "\"Hello there\""
+	var src string
+	label := func() interp.Value { return name.Val }
+	var swKeys, swVals []Tok
+	switch origin {
+	case "text":
+		src = fmt.Sprintf("text %s {\n  format(%s)\n}", name.Placeholder(), lit)
+	case "poryswitch":
+		key := atoms.New(ClsIdent, "swkey", "")
+		val := atoms.New(ClsIdent, "swval", "", "_")
+		src = fmt.Sprintf("text %s {\n  poryswitch(%s) {\n    %s: \"other$\"\n    _: format(%s)\n  }\n}", name.Placeholder(), key.Placeholder(), val.Placeholder(), lit)
+		swKeys, swVals = []Tok{A(key)}, []Tok{A(val)}
+	case "poryswitch-brace":
+		key := atoms.New(ClsIdent, "swkey", "")
+		val := atoms.New(ClsIdent, "swval", "", "_")
+		src = fmt.Sprintf("text %s {\n  poryswitch(%s) {\n    %s: braille\"other$\"\n    _ {\n format(%s)\n }\n  }\n}", name.Placeholder(), key.Placeholder(), val.Placeholder(), lit)
+		swKeys, swVals = []Tok{A(key)}, []Tok{A(val)}
+	case "inline":
+		cmd := atoms.New(ClsPlainCmd, "cmd", "")
+		src = fmt.Sprintf("script %s {\n  %s(format(%s))\n}", name.Placeholder(), cmd.Placeholder(), lit)
+		label = func() interp.Value { return cat(name.Val, "_Text_0") }
+	}
+	prog := &Program{Atoms: atoms, Tops: []interface{}{&TopRaw{Text: src}}}
+	cs := &Case{Name: fmt.Sprintf("c09/format-in-lint-mode/%s/type=%s", origin, typ), Prog: prog, NonTrivial: true,
+		Variants: []Variant{{Name: "opt", Opt: CompileOpts{Optimize: true, SwKeys: swKeys, SwVals: swVals, Lint: true}}},
+		Shape:    c09Shape{Origin: "format:" + origin, Type: typ, Lines: 1}, MaxPaths: 16}
+	cs.Oracle = func(x *OracleCtx) *Violation {
+		res := x.Res["opt"]
+		if res.Err.Panic != "" {
+			return &Violation{Sub: "panic", Msg: res.Err.Panic}
+		}
+		if res.Err.IsErr {
+			return &Violation{Sub: "accept", Msg: "lint mode rejected a format() text: " + interp.ToString(res.Err.Msg)}
+		}
+		got, n := sectionAfterLabel(x, res.Out, label())
+		if n != 1 || len(got) == 0 {
+			return &Violation{Sub: "label", Msg: fmt.Sprintf("the text's label %s is defined %d times (%d data lines)", interp.ToString(label()), n, len(got))}
+		}
+		directive := "string"
+		if typ != "" {
+			directive = typ
+		}
+		for _, l := range got {
+			if _, ok := trimPrefixLit(l, "\t."+directive+" \""); !ok {
+				return &Violation{Sub: "text", Msg: "data line " + interp.ToString(l) + " does not use the directive ." + directive}
+			}
+		}
+		if suf, ok := c09Suffix[typ]; ok {
+			if _, ok := trimSuffixLit(got[len(got)-1], suf+"\""); !ok {
+				return &Violation{Sub: "text", Msg: "last data line " + interp.ToString(got[len(got)-1]) + " does not end in the terminator of its type"}
+			}
+		}
+		return nil
+	}
+	return cs
+}
+
 func matchKnownC09(k *KnownFinding, f *Finding) bool {
 	if kindOf(k) == "poryswitch_fallback_type_dropped" {
 		var sh c09Shape
@@ -265,6 +331,11 @@ func RunC09(env *Env, rep *Report) {
 	for _, origin := range []string{"text", "inline"} {
 		for _, typ := range []string{"ASCII", "Ascii", "Braille", "BRAILLE"} {
 			cases = append(cases, c09Case(origin, typ, 1, ""), c09Case(origin, typ, 2, ""))
+		}
+	}
+	for _, origin := range []string{"text", "poryswitch", "poryswitch-brace", "inline"} {
+		for _, typ := range []string{"", "ascii", "braille", "custom"} {
+			cases = append(cases, c09FormatLintCase(origin, typ))
 		}
 	}
 	cases = append(cases, c09TwoArgsCase("ascii", ""), c09TwoArgsCase("", "braille"), c09TwoArgsCase("custom", ""), c09TwoArgsCase("braille", "ascii"))
